@@ -56,8 +56,8 @@ ASSUMPTIONS = [
     'linked statements say something about the converter only for '
     'transformations with exactly orthonormal rows (C04\'s law); '
     'near-orthonormal input normalised by adjust_matrix is outside',
-    'LAT: one or several lattice cells developed before the FILL loop; '
-    'the per-element description is stated for one lattice cell',
+    'LAT: one or several lattice cells developed before the FILL loop '
+    '(distinct, present, elements with non-empty transformations)',
 ]
 HEADER = ('From Coq Require Import List ZArith Bool.\n'
           'From T4V Require Import C05.Model C05.Exec.\n'
@@ -88,7 +88,8 @@ THEOREMS = ['C05_pot_transform_compl_untouched', 'C05_pot_transform_den',
             'C05_pipeline_with_lattice_linked2',
             'C05_lattice_elements_accepted_linked',
             'C05_located_through_lattice_linked2',
-            'C05_precedence_located_linked_spellings']
+            'C05_precedence_located_linked_spellings',
+            'C05_lat_phase_elems_linked']
 
 
 def tie_case_summary(case):
